@@ -331,6 +331,43 @@ def write_replay(prop, payload):
     return os.path.relpath(path, VERIF)
 
 
+ENV_DIMS = {"neg": {"_lab": "neg"}, "lag": {"_lab": "lag"}, "attrs": {"_attrs": 1}, "layers": {"_layers": "rot"}}
+ENV_MODULES = {"C01", "C04", "C05", "C06", "C07", "C08", "C09", "C11", "C12", "C16", "C17", "C18", "C19"}
+_ENV_OWN_KEYS = ("_lab", "_attrs", "_layers", "falsy", "labels", "mixed", "lab", "label", "fam")
+
+
+def env_variants(mod, cases, tier, rng):
+    """environment-variant stream (shared by every module that builds its graphs through graphs.to_*): a sample of the module's own
+    cases, stratified by `kind`, is re-run with hash-tied labels ("neg": -1,-2,..; "lag": ("x",-1),("x",-2),..), with attribute
+    dicts on nodes/edges/graph whose keys are str, int and tuple, and with the edge-type layers in another insertion order.  The
+    abstract graph is unchanged, so the expected answer is the model's answer for the original case.  A module opts out of a
+    dimension with ENV_SKIP = {...} (and of the stream with ENV_STREAM = False)."""
+    on = getattr(mod, "ENV_STREAM", mod.PROP in ENV_MODULES)
+    if not on:
+        return []
+    dims = [d for d in ENV_DIMS if d not in set(getattr(mod, "ENV_SKIP", ()))]
+    if not dims:
+        return []
+    by_kind = {}
+    for c in cases:
+        if "_corpus" in c or any(k in c and c[k] is not None and c[k] is not False for k in _ENV_OWN_KEYS):
+            continue
+        by_kind.setdefault(c.get("kind", "?"), []).append(c)
+    budget = {"quick": 320, "thorough": 4000}.get(tier, 320)
+    r = random.Random(rng.randrange(1 << 30))
+    for k in by_kind:
+        r.shuffle(by_kind[k])
+    out, j = [], 0
+    while len(out) < budget and any(by_kind.values()):
+        for k in sorted(by_kind):
+            if by_kind[k] and len(out) < budget:
+                c = by_kind[k].pop()
+                d = dims[j % len(dims)]
+                j += 1
+                out.append(dict(c, _env=d, **ENV_DIMS[d]))   # `kind` stays as it is: modules dispatch on it
+    return out
+
+
 def main(mod, argv=None):
     global _MOD
     _MOD = mod
@@ -381,6 +418,7 @@ def main(mod, argv=None):
                 if f.endswith(".json"):
                     corpus.append(dict(json.load(open(os.path.join(cdir, f)))["case"], _corpus=f))
         cases = corpus + list(mod.gen_cases(tier, rng))
+        cases += env_variants(mod, cases, tier, rng)
         sxs, lines, impl, model = ([], [], [], [])
         if proofs.get("skipped") or hasattr(mod, "custom_evaluate") or os.path.exists(os.path.join(BIN, prop.lower())):
             sxs, lines, impl, model = evaluate(mod, cases, pool)
@@ -396,7 +434,8 @@ def main(mod, argv=None):
         disagreements = []
         model_errors = 0
         for i, c in enumerate(cases):
-            kinds[c.get("kind", "?")] = kinds.get(c.get("kind", "?"), 0) + 1
+            kd = str(c.get("kind", "?")) + ("+env:" + c["_env"] if "_env" in c else "")
+            kinds[kd] = kinds.get(kd, 0) + 1
             if isinstance(impl[i], dict) and "exc" in impl[i]:
                 exc_kinds[impl[i]["exc"]] = exc_kinds.get(impl[i]["exc"], 0) + 1
             if isinstance(model[i], dict) and "model_error" in model[i]:
